@@ -201,8 +201,19 @@ func (h *harness) playAll(sessions []Session) []*outcome {
 
 const timeoutBudget = 45 * time.Second
 
+func replayRequested() bool {
+	for _, a := range os.Args[1:] {
+		if a == "-replay" || a == "--replay" || strings.HasPrefix(a, "-replay=") || strings.HasPrefix(a, "--replay=") {
+			return true
+		}
+	}
+	return false
+}
+
 func (h *harness) playOne(w *world, s Session, deadline time.Duration) (o *outcome) {
 	o = &outcome{sess: s}
+	noteStart(w.idx, s)
+	defer noteEnd(w.idx)
 	defer func() {
 		if p := recover(); p != nil {
 			o.obs = &Observed{Stops: map[int]int{}, Anomalies: []string{fmt.Sprintf("harness: panic while playing: %v", p)}, Spec: newSpec(s.Proto)}
@@ -368,6 +379,11 @@ func (h *harness) batch(sessions []Session) {
 		h.run.Count("proto:" + o.sess.Proto)
 		h.run.Count("ids:" + o.sess.Proto + ":" + idSetNames[o.sess.IDSet%len(idSetNames)])
 		h.run.CountN("messages-observed", len(o.obs.Wire))
+		for _, st := range o.sess.Steps {
+			if st.Form > 0 && formApplies(st) {
+				h.run.Count("doc-form:" + formNames[st.Form%len(formNames)])
+			}
+		}
 		if o.obs.CloseCode != 0 {
 			h.run.Count(fmt.Sprintf("close-code:%d", o.obs.CloseCode))
 		}
@@ -395,6 +411,14 @@ func (h *harness) batch(sessions []Session) {
 	}
 	h.run.Oblige(obCorr, "correspondence", nCorr, okC, dC)
 	h.run.Oblige(obOracle, "oracle", nOr, okO, dO)
+	// known finding F-08e (ticker.go): reported next to the session's ordinary verdict, which is
+	// formed with ticker frames tolerated
+	for _, o := range outs {
+		if what, hit := keepAliveBeforeAck(o.sess, o.obs); hit {
+			h.run.Count("keep-alive-before-ack")
+			h.run.Violate("property", o.sess.String()+": "+what, keyKeepAliveBeforeAck, false, replayDoc{Session: o.sess, Observed: o.obs, Oracle: what})
+		}
+	}
 	// goroutine accounting
 	n, dump := h.leakCheck(20 * time.Second)
 	if n > h.leakBase {
@@ -521,6 +545,14 @@ func (h *harness) selfTest() {
 // ---- main -------------------------------------------------------------------------------------------------
 
 func main() {
+	if !isWorker() && !replayRequested() {
+		if rc := supervise(); rc >= 0 {
+			os.Exit(rc)
+		}
+		// the worker could not be started: run unsupervised
+	}
+	initWorker()
+	tStart := time.Now()
 	run := hx.Init("C08")
 	h := &harness{run: run, deadline: 10 * time.Second}
 	if run.Thorough() {
@@ -543,6 +575,7 @@ func main() {
 	}
 	for i := 0; i < nw; i++ {
 		h.worlds = append(h.worlds, newWorld())
+		h.worlds[i].idx = i
 	}
 	defer func() {
 		for _, w := range h.worlds {
@@ -595,11 +628,14 @@ func main() {
 			run.Count("corpus")
 		}
 	}
+	tCorpus := time.Now()
 	for _, s := range corpus {
 		h.batch([]Session{s}) // one by one: a leak is attributed to the corpus case itself
 	}
-
+	tGen := time.Now()
 	generate(h)
+	run.Note("wall: set-up, warm-up and self-test %.1fs, findings + corpus replays %.1fs (one connection is kept idle for 15.3 s), generated sessions %.1fs",
+		tCorpus.Sub(tStart).Seconds(), tGen.Sub(tCorpus).Seconds(), time.Since(tGen).Seconds())
 
 	run.CountN("async:go-tasks", int(atomic.LoadInt64(&asyncTasks)))
 	run.CountN("async:batch-release-not-seen-within-250ms", int(atomic.LoadInt64(&asyncReleaseTimeouts)))
